@@ -460,8 +460,10 @@ struct BitsDriver : DriverBase<BitsDriver<B, W, IsBitset>> {
         size_t len  = static_cast<size_t>(st.k[0] % (W + 3));
         size_t spos = static_cast<size_t>(st.k[1] % (len + 1));
         size_t sn   = st.k[1] % 4 == 0 ? static_cast<size_t>(-1) : static_cast<size_t>((st.k[1] / 4) % (len + 2));
-        char const zero = st.v[1] % 2 == 0 ? '0' : 'o';
-        char const one  = st.v[1] % 2 == 0 ? '1' : 'I';
+        // characters: the defaults, letters, or raw 0/1 bytes (an embedded NUL is legal with an explicit length)
+        int const charset = static_cast<int>(st.v[1] % 3);
+        char const zero   = charset == 0 ? '0' : (charset == 1 ? 'o' : '\0');
+        char const one    = charset == 0 ? '1' : (charset == 1 ? 'I' : '\1');
         bool const customChars = st.v[2] % 2 == 1 || zero != '0';
         std::string text;
         for (size_t i = 0; i < len; ++i) {
@@ -480,10 +482,12 @@ struct BitsDriver : DriverBase<BitsDriver<B, W, IsBitset>> {
         }
         if (form == 4) {
             spos = 0;
-            size_t const used = std::min(sn, len);
             if (sn != static_cast<size_t>(-1) && sn > len) {
                 sn = len; // (ptr, n) with n beyond the terminator is not a valid call for std either
             }
+            // without an explicit length the C string ends at its first NUL
+            size_t const cstrLen = std::min(text.find('\0'), len);
+            size_t const used    = sn == static_cast<size_t>(-1) ? cstrLen : sn;
             if (used > W) {
                 if (st.flt == 0 || !misuse) {
                     sn = W;
@@ -575,13 +579,7 @@ struct BitsDriver : DriverBase<BitsDriver<B, W, IsBitset>> {
                 m = M(text, spos, sn);
             }
             break;
-        case 4:
-            if (sn == static_cast<size_t>(-1)) {
-                m = M(text, 0, std::string::npos, zero, one);
-            } else {
-                m = M(text, 0, sn, zero, one);
-            }
-            break;
+        case 4: m = sn == static_cast<size_t>(-1) ? M(cstr.p, std::string::npos, zero, one) : M(cstr.p, sn, zero, one); break;
         default: m.reset(); break;
         }
         changed(before, m);
